@@ -253,15 +253,27 @@ def check_options(prog, rep, eng):
         return
     m = mains[0]
     rep.functions.add(m.qual)
-    s = eng.summary(m)
-    calls = [x for x in s.sites if x.kind == "call" and x.is_call_to("analyse_formulae")]
+    # private helpers of the binary are inlined (the option may be parsed by a helper)
+    helpers = [f.path for f in prog.fns.values() if f.crate == BIN and f is not m and not f.derived]
+    s = terms.Engine(prog, inline=True, hooks=E.Hooks([], inline_names=helpers)).summary(m)
+    calls = [x for x in s.all_sites() if x.kind == "call" and x.is_call_to("analyse_formulae")]
     table = {}
     if calls:
         opt = calls[0].args[2]
-        if opt[0] == "switch":
-            for (d, g), v in opt[2]:
-                if d[0] == "lit" and v[0] == "ctor":
-                    table[d[1]] = str(v[1]).rsplit("::", 1)[-1]
+        for y in [opt] + list(subterms(opt)):
+            if y[0] == "switch":
+                for (d, g), v in y[2]:
+                    ds = d[1] if d[0] == "or" else (d,)
+                    for d1 in ds:
+                        if d1[0] == "lit" and isinstance(d1[1], str) and v[0] == "ctor":
+                            table[d1[1]] = str(v[1]).rsplit("::", 1)[-1]
+            if y[0] == "ite":
+                # if-chain on string comparisons
+                for z in [y[1]] + list(subterms(y[1])):
+                    if z[0] == "bin" and z[1] == "==" and y[2][0] == "ctor":
+                        for side in (z[2], z[3]):
+                            if side[0] == "lit" and isinstance(side[1], str):
+                                table.setdefault(side[1], str(y[2][1]).rsplit("::", 1)[-1])
     # PossibleValuesParser list: string literals of the derive-generated parser (source snippet of the attribute)
     poss = set()
     for c in prog.crates.values():
